@@ -1,6 +1,7 @@
 import Oracle.Proto
 import Oracle.AStar
 import Oracle.Geometry
+import Oracle.Nav
 /-! Oracle suites of property C20. -/
 namespace Oracle.C20
 
@@ -10,7 +11,9 @@ def suites : List (String × Suite) := [
   ("astar-judge", Oracle.AStar.judge),
   ("geo", Oracle.Geometry.model),
   ("geo-spec", Oracle.Geometry.spec),
-  ("geonum-judge", Oracle.Geometry.judge)
+  ("geonum-judge", Oracle.Geometry.judge),
+  ("funnel", Oracle.Nav.funnelModel),
+  ("navmesh-judge", Oracle.Nav.navJudge)
 ]
 
 end Oracle.C20
